@@ -55,8 +55,8 @@ inductive ERes where
   | err
 
 def sIj : Bytes := [105, 106]
-def sIndexSuffix : Bytes := [95, 95, 105, 110, 100, 101, 120]                       -- "__index"
-def sLastIndexSuffix : Bytes := [95, 95, 108, 97, 115, 116, 73, 110, 100, 101, 120]  -- "__lastIndex"
+def sIndexSuffix : Bytes := [46, 105, 110, 100, 101, 120]                          -- ".index" (loopIndexSuffix)
+def sLastIndexSuffix : Bytes := [46, 108, 97, 115, 116, 73, 110, 100, 101, 120]     -- ".lastIndex" (loopLastIndexSuffix)
 
 def fIndex : Bytes := [105, 110, 100, 101, 120]
 def fIsFirst : Bytes := [105, 115, 70, 105, 114, 115, 116]
@@ -197,8 +197,9 @@ def applyFunc (name : Bytes) (args : List Value) (next : Nat) : ERes :=
   else if name == fKeys then
     match args with
     | [.map _ kvs] =>
-      if kvs.isEmpty then .ok (.list 0 []) next                    -- nil slice
-      else .ok (.list next (kvs.map fun kv => .str kv.1)) (next + 1)
+      -- the keys in sorted order (`sort.Strings`); no key: the nil slice
+      if kvs.isEmpty then .ok (.list 0 []) next
+      else .ok (.list next ((Value.sortStrings (kvs.map fun kv => kv.1)).map Value.str)) (next + 1)
     | _ => .err
   else if name == fAugmentMap then
     match args with
@@ -342,13 +343,20 @@ inductive AStep where
   | ret (v : Value)      -- `return data.Null{}` of a null-safe access
   | err
 
-/-- the `switch obj := ref.(type)` of evalDataRef; `index = -1` and `key = ""` are the Go sentinels -/
-def accessStep (ref : Value) (nullSafe : Bool) (index : Int) (key : Bytes) : AStep :=
+/-- the `switch obj := ref.(type)` of evalDataRef: `index = some i` is `hasIndex` (a `.N` / `[int]` access),
+    otherwise `key` is the key — "" and -1 are a key / an index like any other -/
+def accessStep (ref : Value) (nullSafe : Bool) (index : Option Int) (key : Bytes) : AStep :=
   match ref with
   | .undefined => if nullSafe then .ret .null else .err
   | .null => if nullSafe then .ret .null else .err
-  | .list _ xs => if index == -1 then .err else .cont (Value.index xs index)
-  | .map _ kvs => if key.isEmpty then .err else .cont (Value.key kvs key)
+  | .list _ xs =>
+    match index with
+    | none => .err                         -- "is a list, but was accessed with a non-integer index"
+    | some i => .cont (Value.index xs i)
+  | .map _ kvs =>
+    match index with
+    | some _ => .err                       -- "is a map, and requires a string key to access"
+    | none => .cont (Value.key kvs key)
   | _ => .err
 
 mutual
@@ -463,9 +471,9 @@ def evalArgs (env : EEnv) : ExprList → Nat → Option (List Value × Nat)
       | some (vs, n2) => some (v :: vs, n2)
       | none => none
     | .err => none
-/-- `for k, v := range node.Items { items[k] = s.eval(v) }`: Go ranges over the map in random order;
-    the order can only decide which error is met first (one error class) and which fresh identities the
-    values get (any injective choice is equivalent). -/
+/-- `for _, k := range keys { items[k] = s.eval(node.Items[k]) }` with `keys` sorted: the AST's items are in
+    sorted key order (the converter and the wire format list a map literal's items by key), so the list
+    order here is the evaluation order of the code. -/
 def evalMapItems (env : EEnv) : MapItems → Nat → Option (Frame × Nat)
   | .nil, n => some ([], n)
   | .cons k e r, n =>
@@ -479,19 +487,19 @@ def evalMapItems (env : EEnv) : MapItems → Nat → Option (Frame × Nat)
 def evalAccesses (env : EEnv) : AccessList → Value → Nat → ERes
   | .nil, ref, n => .ok ref n
   | .cons (.key _ ns k) rest, ref, n =>
-    match accessStep ref ns (-1) k with
+    match accessStep ref ns none k with
     | .cont v => evalAccesses env rest v n
     | .ret v => .ok v n
     | .err => .err
   | .cons (.index _ ns i) rest, ref, n =>
-    match accessStep ref ns i [] with
+    match accessStep ref ns (some i) [] with
     | .cont v => evalAccesses env rest v n
     | .ret v => .ok v n
     | .err => .err
   | .cons (.expr _ ns e) rest, ref, n =>
     match evalE env e n with
     | .ok (.int i) n1 =>
-      match accessStep ref ns i.toInt [] with
+      match accessStep ref ns (some i.toInt) [] with
       | .cont v => evalAccesses env rest v n1
       | .ret v => .ok v n1
       | .err => .err
@@ -499,7 +507,7 @@ def evalAccesses (env : EEnv) : AccessList → Value → Nat → ERes
       match str kv with
       | none => .err          -- Undefined.String()
       | some k =>
-        match accessStep ref ns (-1) k with
+        match accessStep ref ns none k with
         | .cont v => evalAccesses env rest v n1
         | .ret v => .ok v n1
         | .err => .err
@@ -589,25 +597,25 @@ def errPosMap (env : EEnv) : MapItems → Nat → Nat → Nat
 def errPosAcc (env : EEnv) : AccessList → Value → Nat → Nat → Nat
   | .nil, _, _, own => own
   | .cons (.key _ ns k) rest, ref, n, own =>
-    match accessStep ref ns (-1) k with
+    match accessStep ref ns none k with
     | .cont v => errPosAcc env rest v n own
     | _ => own
   | .cons (.index _ ns i) rest, ref, n, own =>
-    match accessStep ref ns i [] with
+    match accessStep ref ns (some i) [] with
     | .cont v => errPosAcc env rest v n own
     | _ => own
   | .cons (.expr _ ns e) rest, ref, n, own =>
     match evalE env e n with
     | .err => errPosE env e n
     | .ok (.int i) n1 =>
-      match accessStep ref ns i.toInt [] with
+      match accessStep ref ns (some i.toInt) [] with
       | .cont v => errPosAcc env rest v n1 own
       | _ => own
     | .ok kv n1 =>
       match str kv with
       | none => own
       | some k =>
-        match accessStep ref ns (-1) k with
+        match accessStep ref ns none k with
         | .cont v => errPosAcc env rest v n1 own
         | _ => own
 end
